@@ -36,7 +36,7 @@ _TIER = ['quick']
 
 
 def scope_text(tier):
-    return ('%s settings x limiter scripts (0, every single%s deviation, extremes) x 6 cache histories; cache keys over a family '
+    return ('%s settings x limiter scripts (0, every single%s deviation, extremes incl. by-name ones, complements = only two candidates run for 3 settings) x 6 cache histories; cache keys over a family '
             'of ~10^5 settings' % (('~70', '') if tier == 'quick' else ('~400', ' and every pair of')))
 
 
